@@ -319,7 +319,7 @@ def _decode_side(prog, res, mod, kind, N, f):
         for i, s in enumerate(f.blocks[b]["stmts"]):
             if s["k"] == "assign" and s["place"]["local"] == 0 and s["rv"]["k"] == "aggregate" and s["rv"].get("vname") == "Err":
                 v = fa.rv_term(s["rv"], (b, i))
-                _ev = err_variant(v)
+                _ev = err_variant(v, fa)
                 if _ev is not None:
                     errs.add(_ev)
     res.ob("K-guard", "%s::decode | a count above the capacity is reported as CapacityExceeded" % mod, errs == {"CapacityExceeded"}, str(sorted(errs)), loc)
